@@ -114,13 +114,14 @@ class Gen:
         if allow_tiles and h >= 2 and r.integers(0, 4) == 0:
             # rolling-buffer style: split in height, second tile wraps to another base
             h0 = int(r.integers(1, h))
-            b2 = int(r.choice(self.pool[region]))
+            # tiles of one feature map never alias each other: each lives in its own 2 MiB bank of the region
+            b2 = int(r.choice(self.pool[region])) + 0x200000
             b2 = (b2 // 16) * 16 if layout == "NHCWB16" else (b2 // e) * e
             tiles, addrs = (h0, h0, w), [base, 0, b2, 0]
             if w >= 2 and r.integers(0, 3) == 0:
                 w0 = int(r.integers(1, w))
-                b1 = ((base + 0x1000) // 16) * 16
-                b3 = ((b2 + 0x1000) // 16) * 16
+                b1 = ((base + 0x400000) // 16) * 16
+                b3 = ((b2 + 0x400000) // 16) * 16
                 h1 = h0 if r.integers(0, 2) else int(r.integers(1, h))
                 tiles, addrs = (h0, h1, w0), [base, b1, b2, b3]
         scale, zp = self.rquant(dtype)
